@@ -551,12 +551,29 @@ func (s *Stream) handleDataFrame(f Frame) error {
 	}
 
 	if f.Opcode().IsText() && s.validateUTF8 {
-		if !utf8.Valid(f.Payload()) {
+		if !validTextFragment(f.Payload(), f.IsFIN()) {
 			return ErrInvalidUTF8
 		}
 	}
 
 	return nil
+}
+
+// validTextFragment reports whether b is valid UTF-8. A fragment that is not the last one of its message may end inside
+// a multi-byte sequence (RFC 6455 section 5.6): such an incomplete sequence at the very end is not an error.
+func validTextFragment(b []byte, fin bool) bool {
+	if utf8.Valid(b) {
+		return true
+	}
+	if fin {
+		return false
+	}
+	for i := 1; i < utf8.UTFMax && i <= len(b); i++ {
+		if tail := b[len(b)-i:]; utf8.RuneStart(tail[0]) {
+			return !utf8.FullRune(tail) && utf8.Valid(b[:len(b)-i])
+		}
+	}
+	return false
 }
 
 // Write writes the supplied buffer as a single message with the given type to the underlying stream.
